@@ -811,8 +811,11 @@ func (s *Server) handleRPCFormContract(stream net.Conn) error {
 	// update renter input basis to reflect our funding basis
 	if basis != req.Basis {
 		hostInputs := formationTxn.SiacoinInputs[len(req.RenterInputs):]
-		formationTxn.SiacoinInputs = formationTxn.SiacoinInputs[:len(req.RenterInputs)]
-		txnset, err := s.chain.UpdateV2TransactionSet([]types.V2Transaction{formationTxn}, req.Basis, basis)
+		// NOTE: formationTxn must keep the host inputs until the update has
+		// succeeded, otherwise the deferred release would skip them
+		renterTxn := formationTxn
+		renterTxn.SiacoinInputs = formationTxn.SiacoinInputs[:len(req.RenterInputs)]
+		txnset, err := s.chain.UpdateV2TransactionSet([]types.V2Transaction{renterTxn}, req.Basis, basis)
 		if err != nil {
 			return errorBadRequest("failed to update renter inputs from %q to %q: %v", req.Basis, basis, err)
 		}
@@ -968,8 +971,11 @@ func (s *Server) handleRPCRefreshContract(stream net.Conn, partial bool) error {
 	// update renter inputs to reflect our chain state
 	if basis != req.Basis {
 		hostInputs := renewalTxn.SiacoinInputs[len(req.RenterInputs):]
-		renewalTxn.SiacoinInputs = renewalTxn.SiacoinInputs[:len(req.RenterInputs)]
-		updated, err := s.chain.UpdateV2TransactionSet([]types.V2Transaction{renewalTxn}, req.Basis, basis)
+		// NOTE: renewalTxn must keep the host inputs until the update has
+		// succeeded, otherwise the deferred release would skip them
+		renterTxn := renewalTxn
+		renterTxn.SiacoinInputs = renewalTxn.SiacoinInputs[:len(req.RenterInputs)]
+		updated, err := s.chain.UpdateV2TransactionSet([]types.V2Transaction{renterTxn}, req.Basis, basis)
 		if err != nil {
 			return errorBadRequest("failed to update renter inputs from %q to %q: %v", req.Basis, basis, err)
 		}
@@ -1149,8 +1155,11 @@ func (s *Server) handleRPCRenewContract(stream net.Conn) error {
 	// update renter inputs to reflect our chain state
 	if basis != req.Basis {
 		hostInputs := renewalTxn.SiacoinInputs[len(req.RenterInputs):]
-		renewalTxn.SiacoinInputs = renewalTxn.SiacoinInputs[:len(req.RenterInputs)]
-		updated, err := s.chain.UpdateV2TransactionSet([]types.V2Transaction{renewalTxn}, req.Basis, basis)
+		// NOTE: renewalTxn must keep the host inputs until the update has
+		// succeeded, otherwise the deferred release would skip them
+		renterTxn := renewalTxn
+		renterTxn.SiacoinInputs = renewalTxn.SiacoinInputs[:len(req.RenterInputs)]
+		updated, err := s.chain.UpdateV2TransactionSet([]types.V2Transaction{renterTxn}, req.Basis, basis)
 		if err != nil {
 			return errorBadRequest("failed to update renter inputs from %q to %q: %v", req.Basis, basis, err)
 		}
